@@ -559,6 +559,8 @@ impl Curve2 {
             let mut working = start;
 
             loop {
+                #[cfg(feature = "verif")]
+                crate::verif::tick();
                 points.push(working.point);
 
                 // Advance to the next index
@@ -894,6 +896,8 @@ impl Curve2 {
         let mut i = 0;
 
         while i < self.count() {
+            #[cfg(feature = "verif")]
+            crate::verif::tick();
             if let Some((i0, i1, arc)) = self.equivalent_arc_at(i, tol) {
                 if i1 - i0 + 1 >= min_points {
                     arcs.push((i0, i1, arc));
@@ -916,11 +920,15 @@ impl Curve2 {
         let mut best_arc = None;
 
         while let Some(arc) = self.in_tol_arc(seed_index, pos, neg, tol) {
+            #[cfg(feature = "verif")]
+            crate::verif::tick();
             pos += 1;
             best_arc = Some(arc);
         }
 
         while let Some(arc) = self.in_tol_arc(seed_index, pos, neg, tol) {
+            #[cfg(feature = "verif")]
+            crate::verif::tick();
             neg += 1;
             best_arc = Some(arc);
         }
@@ -1039,6 +1047,8 @@ fn resample_by_spacing(curve: &Curve2, spacing: f64) -> Result<Curve2> {
     let mut positions = Vec::new();
     let mut length = 0.0;
     while length < curve.length() {
+        #[cfg(feature = "verif")]
+        crate::verif::tick();
         positions.push(length);
         length += spacing;
     }
